@@ -427,7 +427,7 @@ class Table(object):
 
         for values_tuple in sorted(itertools.product(*lookup_values)):
           values_dict = dict(zip(groupby_cols, values_tuple))
-          row_id = summary_table.lookup_one_record(**values_dict)._row_id
+          row_id = summary_table._lookup_records_by_cols(values_dict).get_one()._row_id
           if row_id:
             result.append(row_id)
           else:
@@ -521,9 +521,16 @@ class Table(object):
     dependencies, so that the formula will get re-evaluated if needed. It also creates and starts
     maintaining a lookup index to make such lookups fast.
     """
-    # The tuple of keys used determines the LookupMap we need.
     sort_by = kwargs.pop('sort_by', None)
     order_by = kwargs.pop('order_by', 'id')   # For backward compatibility
+    return self._lookup_records_by_cols(kwargs, order_by, sort_by)
+
+  def _lookup_records_by_cols(self, kwargs, order_by='id', sort_by=None):
+    """
+    Same as lookup_records(), for internal callers: kwargs is a dict that maps column IDs to values
+    and nothing else, so columns may have any name, including 'order_by' and 'sort_by'.
+    """
+    # The tuple of keys used determines the LookupMap we need.
     key = []
     col_ids = []
     for col_id in sorted(kwargs):
@@ -613,7 +620,7 @@ class Table(object):
     self._add_field_to_record_classes(col_obj)
 
   def lookupOrAddDerived(self, **kwargs):
-    record = self.lookup_one_record(**kwargs)
+    record = self._lookup_records_by_cols(kwargs).get_one()
     if not record._row_id and not self._engine.is_triggered_by_table_action(self.table_id):
       record._row_id = self._engine.user_actions.AddRecord(self.table_id, None, kwargs)
     return record
